@@ -18,7 +18,7 @@ RULE = ("cases: one listener/session context (peer v4/v6/absent, public address,
         "empty/adversarial values that imitate sozu's own elements, cookies incl. the sticky one, optional trailers), "
         "pushed through front H1 (real kawa parse at a seeded segmentation) or front H2 (real pkawa::handle_header on an "
         "HPACK block) and serialised toward H1 (kawa block converter) or H2 (H2BlockConverter); then optionally a "
-        "backend response through on_response_headers. A separate malformed stream (forbidden bytes in names/values, "
+        "backend response through on_response_headers and optional per-frontend response edits (HSTS: append / set-if-absent / set). A separate malformed stream (forbidden bytes in names/values, "
         "broken cookie grammar) must be rejected. Non-trivial and distinct: the request is forwarded, carries >=1 "
         "client-supplied proxy-owned header and >=2 other end-to-end headers; distinct by op text.")
 ASSUMPTIONS = [
@@ -230,6 +230,11 @@ def request_case(rng, cid, with_rsp):
             ops.append(["h", b(n), b(v)])
         if rfront == 1 and bd:
             ops.append(ops_body)
+        if rng.random() < 0.45:
+            # per-frontend response edits (HSTS is a SetIfAbsent / Set edit of strict-transport-security)
+            for _ in range(rng.randint(1, 3)):
+                key = rng.choice(["strict-transport-security", "Strict-Transport-Security", "X-A", "server", "Sozu-Id", "X-New", "connection"])
+                ops.append(["edit", rng.choice([0, 0, 1, 1, 2]), b(key), b(rng.choice(["max-age=31536000; includeSubDomains", "v", "", "max-age=1"]))])
         ops.append(["rsp", rfront, rback, b(rng.choice(["200", "404", "500"]))])
     return Case(cid, ops, tags)
 
@@ -341,7 +346,9 @@ LEVEL_TEXT = ("Machine-checked proof (Coq 8.16) over an executable model of the 
               "differential run of the real kawa parser + HttpContext + serialisers (H1 and H2, both directions) "
               "against the extracted model, with the property's own oracle evaluated on the implementation's output.")
 LEVEL_NOTE = ("Trusted: Coq kernel; extraction and ocaml/driver.ml for the correspondence only; kawa's parser/serialiser, "
-              "loona-hpack and Display of IpAddr are oracles (only their view/alphabet is assumed). Per-frontend request "
-              "rewrites are operator configuration and outside the model.")
+              "loona-hpack and Display of IpAddr are oracles (only their view/alphabet is assumed). Per-frontend RESPONSE "
+              "edits (HSTS) are modelled and tied (apply_response_header_edits through the hook); per-frontend REQUEST "
+              "rewrites (router.rs apply_request_rewrites_and_headers, operator configuration) are outside the model. The "
+              "black-box tier drives the HTTP/1 frontend of a real worker only (no TLS/H2 client).")
 TECHNIQUE = "Rocq/Coq proof over an executable Gallina model + differential correspondence (extracted OCaml vs real crate)"
 CLAIMED = True
